@@ -30,9 +30,7 @@ def rules(ck, P='C11'):
     # ------------------------------------------------ continuation calls
     def pdu_fits_total_length(I, w, args, body):
         # quantifier of the property: PDUs that fit the 16-bit total length
-        for i in range(1, body.arg_count + 1):
-            if body.local_names.get(i) == 'pdu':
-                w.store = w.store.add(le(args[i - 1][3], Lin.c(65535)))
+        w.store = w.store.add(le(args[param_index(body, 'pdu') - 1][3], Lin.c(65535)))
     a = analyse_writer(ck, ENC + 'encap_frag', tag='c11', extra={'kslots': 6}, premise=pdu_fits_total_length)
     env, rows = writer_rows(ck, a, 'encap_frag')
     B, PL, c = env['B'], env['P'], env['c']
